@@ -168,6 +168,29 @@ theorem no_early (C : GBConf) (nk : Nat) (hK : KeyLen C nk) (idx : Nat) (honly :
   fold_no_early wlessFixed_laws hK idx zeroNs (gbInit C) B (init_inv (C := C) (nk := nk) (wl := wl))
     (onlyWm_leaves idx C.cfg honly)
 
+/-- the trigger object right before the node polls it for message `m` -/
+def polledTrigger (C : GBConf) (st : NState) : Msg → TState
+  | .data r => st.trig.keyReceived wl (C.keyOf r.vals)
+  | .wm w => st.trig.watermarkReceived w
+
+/-- **Nothing is emitted unless a trigger fired it.**  For every configuration, at every point of the run:
+    each record the node emits for a message (a new row or a retraction) belongs to a key that one of the
+    primitive triggers returned from the `Poll` made for that message.  What each kind of primitive trigger
+    returns is pinned down by `counting_fires`, `watermark_upto` and `eos_trigger_silent`; in particular a key
+    beyond the watermark can only have been emitted because a COUNTING member fired it. -/
+theorem emitted_was_polled (C : GBConf) (nk : Nat) (hK : KeyLen C nk) (B : List Msg) (m : Msg) :
+    let st := (gbFold wl C (gbInit C) B).1
+    ∀ r ∈ recs (gbStep wl C st m).2,
+      ∃ l ∈ (polledTrigger C st m).leaves, ∃ k ∈ (l.poll wl).1, keq k (r.vals.take nk) = true := by
+  intro st r hr
+  have hinv := (fold_inv wlessFixed_laws hK (gbInit C) B (init_inv (C := C) (nk := nk) (wl := wl))).1
+  cases m with
+  | data rec =>
+    exact fire_emitted_polled (wl := wl) _ (etNs rec.et) (pre_inv_data wlessFixed_laws hK st rec hinv) r hr
+  | wm w =>
+    simp only [gbStep, recs_append, List.mem_append, recs, List.not_mem_nil, or_false] at hr
+    exact fire_emitted_polled (wl := wl) _ w (pre_inv_wm st w hinv) r hr
+
 /-- the output of the whole run starts with what was emitted while the source ran -/
 theorem run_prefix (C : GBConf) (B₁ B₂ : List Msg) :
     ∃ rest, gbRun wl C (B₁ ++ B₂) = (gbFold wl C (gbInit C) B₁).2 ++ rest := by
